@@ -33,7 +33,7 @@ var QuickBounds = Bounds{Steps: 2_000_000, Depth: 64, Paths: 4096}
 type Interp struct {
 	Prog    *ssa.Program
 	Sizes   types.Sizes
-	Home    func(pkgPath string) bool                 // packages whose functions are interpreted
+	Home    func(pkgPath string) bool                     // packages whose functions are interpreted
 	Cut     func(pkgPath string) (prefix string, ok bool) // packages whose functions become terms
 	Bounds  Bounds
 	globals map[*ssa.Global]*Cell
